@@ -54,7 +54,7 @@ CHECKS.update({
         design_ref="6/C10"),
     "C17": dict(
         text="Theorems on the model: simulate and flux recovery depend on times only through increments (shift invariance, any c, "
-             "any grid, any user-supplied diffusivity law - C17_user_law.v), mismatched schedule length is rejected, interpolator is exact at nodes / 0 before / last after. The "
+             "any grid, any user-supplied diffusivity law - C17_user_law.v; restated in C17_source_loop.v about the array the regenerated time loop leaves), mismatched schedule length is rejected, interpolator is exact at nodes / 0 before / last after. The "
              "implementation is exercised with shifts to 1e6, constant schedules, wrong lengths, and compared with the float model.",
         technique="Coq proof (structural induction on the time fold) + float-instance correspondence",
         design_ref="6/C17"),
